@@ -29,6 +29,9 @@ fn handle(words: &[&str]) -> String {
         Some("mem_rs") => mem_cmd::run(&words[1..]),
         Some("exec1") => exec_cmd::run(&words[1..]),
         Some("irq") => irq_cmd::run(&words[1..]),
+        Some("snap") => irq_cmd::snap(&words[1..]),
+        Some("snapsave") => irq_cmd::snapsave(&words[1..]),
+        Some("snapload") => irq_cmd::snapload(&words[1..]),
         Some("exec_split") => exec_cmd::run_split(&words[1..]),
         Some("asynccpu") => sched_cmd::run_cpu(&words[1..]),
         Some(c) => format!("ERR unknown-command {c}"),
